@@ -7,6 +7,7 @@ textual fixpoint; %define / %include must be refused.
 
 import io
 import itertools
+import os
 
 from ..ref import refparse
 from . import c03
@@ -181,7 +182,8 @@ def check_text(ctx, text, family):
     res.evaluations += 1
     case = {"text": text, "family": family}
     # refusal of %define / %include
-    _, ref_out, _ = refparse.parse(text, schemaless=True)
+    _, ref_out, _ = refparse.parse(text, schemaless=True,
+                                   env=dict(os.environ))
     bad, r1 = roundtrip(text)
     if r1[0] == "internal" and ref_out[0] != "unjudged":
         res.count("internal")
@@ -260,14 +262,21 @@ def targeted_text(rng):
         elif r < 0.9:
             lines.append(pre + "%import " +
                          rng.choice(["p", "p.q", "P", "a$$b", "p", "x y"]))
-        else:
+        elif r < 0.95:
             lines.append(rng.choice(["", "# c", "k"]))
+        else:
+            lines.append(pre + rng.choice(["%include $(ZCV_EMPTY)",
+                                           "%import $(ZCV_EMPTY)x",
+                                           "k $(ZCV_EMPTY)",
+                                           "%include f.conf",
+                                           "%define a b"]))
     while stack:
         lines.append("</%s>" % stack.pop())
     return "\n".join(lines) + "\n"
 
 
 def run_shard(ctx):
+    os.environ["ZCV_EMPTY"] = ""     # set but empty (see C03)
     bound = BOUND[ctx.tier]
     for s in c03.enum_lines(ctx, bound, 0):
         check_text(ctx, s, "line")
